@@ -1,6 +1,40 @@
-"""Deductive sections shared by the value-level properties (C01 C02 C03 C04 C07 C14 C17):
-filled in by the regex / decoder back ends (see DESIGN.md §2.5)."""
+"""Deductive sections shared by the value-level properties (C01 C02 C03 C04 C07 C14 C17) and by
+C06/C18: decoder and Token contracts (pyvc T_dec) and the regex-language obligations."""
+import time
+
+from ..harness import Section
+from ..pyvc.verify import verify_contracts
+from ..pyvc.dectheory import DecTheory
+from ..contracts import decoder as cd
+
+DEC_ASSUMPTIONS = [
+    "acceptance languages of int(s, 10), real_cls(str), datetime.strptime per format family and re.fullmatch are "
+    "uninterpreted predicates of the token text in these VCs (their languages: regex back end / bounded drivers)",
+    "for_try_except(exc, f, *iterables): assumed contract (first successful application, else the exception class)",
+    "ODLDecoder.is_identifier, Token.is_space/is_WSC/is_comment, OmniDecoder.decode_datetime (dateutil import inside the "
+    "body): not under contract - bounded only",
+    "grammar tables (comments, whitespace, reserved characters, keywords) are arbitrary finite collections of strings",
+]
+
+
+def decoder_section(ctx, name="decoder-and-token-contracts"):
+    s = Section(name, "smt",
+                rule="decode_* methods of the four decoder classes and the Token predicates: permitted exits (raises closure), "
+                     "cascade priority of decode_simple_value, predicate == decoder acceptance")
+    t0 = time.time()
+    verify_contracts(s, cd.contracts(), DecTheory, ["pvl.decoder", "pvl.token"], jobs=ctx.jobs)
+    s.assumptions += DEC_ASSUMPTIONS
+    s.seconds = time.time() - t0
+    return s
 
 
 def sections_for(pid, ctx):
-    return []
+    out = []
+    if pid in ("C17", "C03", "C14"):
+        out.append(decoder_section(ctx))
+    try:
+        from . import regexsec
+        out += regexsec.sections_for(pid, ctx)
+    except ImportError:
+        pass
+    return out
